@@ -26,7 +26,7 @@ CHECKS = {
                 "with a complete reference path; distinct = hash of (dictionary description, user lexicon, mapping, sentence, options).",
         "required_buckets": ["connector_matrix", "connector_raw", "connector_dual", "with_user_lexicon", "with_id_mapping",
                              "astral_in_sentence", "inner_gap_observed", "leading_gap_observed", "trailing_gap_observed",
-                             "unknown_token_observed", "user_token_observed", "id_equal_to_dimension_rejected_by_builder"],
+                             "unknown_token_observed", "user_token_observed", "id_equal_to_dimension_rejected_by_builder", "two_id_mappings_then_user_lexicon", "user_lexicon_then_two_id_mappings"],
         "assumptions": ["the reference character table (last covering range line wins, DEFAULT otherwise) is the reading of char.def the property states",
                         "termination is observed up to the per-stage watchdog only"],
     },
@@ -58,7 +58,7 @@ CHECKS = {
                 "reference table. Non-trivial = non-empty sentence fully compared; distinct = hash of (dictionary, sentence, options).",
         "required_buckets": ["invoke0_lex_match_suppresses", "invoke1_with_lex_match", "group_run", "group_omitted_by_mgl",
                              "length_limited_by_run", "dup_run_length_skipped", "fallback_single_char", "multi_category_char",
-                             "astral_start", "homographs_at_position", "user_lexicon_candidate", "space_skipped", "user_lexicon_loaded_then_cleared"],
+                             "astral_start", "homographs_at_position", "user_lexicon_candidate", "space_skipped", "user_lexicon_loaded_then_cleared", "witness_group_run_longer_than_65535_ok"],
         "required_buckets_thorough": ["whole_bmp_table_compared"],
         "assumptions": ["with ignore_space the candidate comparison is made only on dictionaries meeting C12's precondition"],
     },
@@ -115,7 +115,7 @@ CHECKS = {
         "required_buckets": ["history_ends_with_clear", "history_replaces_lexicon", "history_ends_with_load", "user_token_on_best_path",
                              "system_token_with_user_lexicon_loaded", "invalid_rows_on_mapped_dictionary", "dictionary_mapped_twice",
                              "invalid_user_lexicon_rejected_left_id_out_of_range", "invalid_user_lexicon_rejected_right_id_out_of_range",
-                             "invalid_user_lexicon_rejected_too_few_columns"],
+                             "invalid_user_lexicon_rejected_too_few_columns", "mapping_after_the_history", "two_mappings_after_the_history"],
         "assumptions": ["byte identity of images after clear is not required (the property speaks of behaviour)"],
     },
     "C12": {
@@ -153,7 +153,7 @@ CHECKS = {
                 "stage): readable, re-written byte-identically, token-for-token the same results. Distinct = hash of (image, later operations).",
         "required_buckets": ["connector_matrix", "connector_raw", "connector_dual", "with_user_lexicon", "with_id_mapping", "later_load_user",
                              "later_clear", "later_map", "later_write_read", "failing_writer_yields_err_and_prefix", "image_read_through_chunked_reader",
-                             "foreign_image_read_rewritten_and_tokenized_identically"],
+                             "foreign_image_read_rewritten_and_tokenized_identically", "image_followed_by_user_lexicon_in_one_stream", "char_def_assigns_U+0000"],
         "assumptions": ["images are compared between a portable and an AVX2 build made by the same compiler on this machine"],
     },
     "C07": {
@@ -214,7 +214,7 @@ CHECKS = {
                 "word_feature(i) byte for byte in row order, no extra word, and for every distinct surface the lattice nodes at position 0 = "
                 "the rows with that surface (row index, ids, cost). Distinct = hash of the CSV text.",
         "required_buckets": ["homographs", "empty_surface_row_skipped", "no_final_newline", "file_ends_after_fourth_comma",
-                             "surface_with_comma_or_quote", "quoted_feature_cell", "empty_feature", "system_lexicon", "user_lexicon"],
+                             "surface_with_comma_or_quote", "quoted_feature_cell", "empty_feature", "system_lexicon", "user_lexicon", "same_rows_as_system_and_user_lexicon", "256_or_more_homographs_of_one_surface"],
         "assumptions": ["well-formed = \\n line ends, no BOM, no NUL, no line break inside a quoted cell, fields < 4096 bytes",
                         "a lexicon in which no row has a surface may be rejected with an error"],
     },
@@ -255,7 +255,7 @@ CHECKS = {
         "required_buckets": ["builder_returned_err", "builder_returned_dictionary", "reference_parsers_accept_too", "reference_parsers_decline",
                              "accepted_dictionary_checked_against_reference_reading", "user_lexicon_rejected", "mapping_sequence_no_panic",
                              "err_char.def", "err_lex.csv", "err_unk.def", "err_matrix.def", "err_bigram.cost", "seed_bundled_resources",
-                             "reader_io_error_surfaced_as_err", "two_or_more_accepted_mappings_in_a_row"],
+                             "reader_io_error_surfaced_as_err", "two_or_more_accepted_mappings_in_a_row", "user_csv_rejected_on_mapped_dictionary"],
         "assumptions": ["the strict reference parsers accept only a conservative subset of each format; when they decline, only the no-panic and id-range clauses are judged",
                         "out-of-memory aborts caused by absurd declared sizes are reported as process aborts, not silently ignored"],
     },
@@ -292,7 +292,7 @@ CHECKS = {
                 "Distinct = hash of the generated files.",
         "required_buckets": ["training_succeeded", "generated_twice", "in_memory_vs_reloaded_compared", "second_round_trip_compared", "model_read_through_chunked_reader",
                              "user_lexicon_added_after_a_generation", "user_lexicon_added_before_first_generation",
-                             "cli_pipeline_train_dictgen_twice", "cli_files_equal_in_process_files", "seed_surface_with_line_break", "model_and_user_lexicon_from_one_stream"],
+                             "cli_pipeline_train_dictgen_twice", "cli_files_equal_in_process_files", "seed_surface_with_line_break", "model_and_user_lexicon_from_one_stream", "generated_twice_with_user_lexicon"],
         "assumptions": ["user entries are not part of the stored model (the CLI re-reads them), so user.csv is compared only when both sides read the same user lexicon"],
     },
     "C16": {
@@ -355,7 +355,7 @@ CHECKS = {
                 "dictionary (any connector kind, -S/-M options) with 33 input lines and parses their stdout as a corpus: tokens = the "
                 "tokens obtained in-process for the same lines. Distinct = hash of the corpus text / CLI output.",
         "required_buckets": ["sentence_without_tokens_dropped", "token_whose_surface_is_EOS", "malformed_line_rejected", "non_utf8_line_rejected",
-                             "tokenizer_cli_output_parsed_as_corpus", "token_of_65536_bytes_or_more", "first_line_starts_with_U+FEFF"],
+                             "tokenizer_cli_output_parsed_as_corpus", "token_of_65536_bytes_or_more", "first_line_starts_with_U+FEFF", "tokenizer_output_accepted_by_trainer"],
         "assumptions": ["tokenizer inputs and dictionary features contain no tab or line break"],
     },
     "C20": {
@@ -370,7 +370,7 @@ CHECKS = {
                 "dense and increasing; a gap, a malformed id line or a non-BOS/EOS id 0 (in either table) must yield Err. "
                 "Distinct = hash of the description.",
         "required_buckets": ["non_zero_cost_compared", "optional_template_not_applicable", "id_tables_of_different_sizes",
-                             "rejected_gap_among_ids", "rejected_malformed_id_line", "rejected_id_0_not_BOS_EOS", "id_table_lines_not_in_ascending_order", "weights_beyond_16_bits_after_scaling"],
+                             "rejected_gap_among_ids", "rejected_malformed_id_line", "rejected_id_0_not_BOS_EOS", "id_table_lines_not_in_ascending_order", "weights_beyond_16_bits_after_scaling", "more_than_8_templates"],
         "assumptions": ["feature values contain no '/' and id tables start at 0 with BOS/EOS, as MeCab's do; duplicate model lines are not generated"],
     },
 }
